@@ -39,6 +39,9 @@ enum Fam {
     SelfHashCheck,
     OutputCount(u8),
     Random(Vec<Op>),
+    /// small integers pushed, then Loop(n, 2){ Bez(2); Noop }; Noop: the first zero popped breaks out of the loop
+    /// (two past its body) and whatever is then on top decides
+    LoopBreak(Vec<u8>, u16),
     /// raw covenant bytes cut inside a literal, extended by a cut literal, or holding an unassigned opcode
     Mangled(Vec<u8>),
     AlwaysTrue,
@@ -60,6 +63,7 @@ fn fam_name(f: &Fam) -> &'static str {
         Fam::SelfHashCheck => "self-hash",
         Fam::OutputCount(_) => "output-count-bound",
         Fam::Random(_) => "random-program",
+        Fam::LoopBreak(..) => "loop-with-break",
         Fam::Mangled(b) => {
             if refvm::decode(b).is_none() {
                 "undecodable-bytes"
@@ -95,6 +99,11 @@ fn cov_of(f: &Fam, keys: &[Key]) -> Vec<u8> {
         Fam::SelfHashCheck => refvm::encode(&[pushi(0), pushi(4), Op::LoadImm(0), Op::VRef, Op::VRef, Op::Hash(1000), Op::BtoI, Op::LoadImm(4), Op::BtoI, Op::Eql]).unwrap(),
         Fam::OutputCount(n) => refvm::encode(&[pushi(2), Op::LoadImm(0), Op::VRef, Op::VLength, pushi(*n as u128), Op::Eql]).unwrap(),
         Fam::Random(ops) => refvm::encode(ops).unwrap(),
+        Fam::LoopBreak(vals, iters) => {
+            let mut ops: Vec<Op> = vals.iter().map(|v| pushi(*v as u128)).collect();
+            ops.extend([Op::Loop(*iters, 2), Op::Bez(2), Op::Noop, Op::Noop]);
+            refvm::encode(&ops).unwrap()
+        }
         Fam::Mangled(b) => b.clone(),
         Fam::AlwaysTrue => always_true_cov(),
     }
@@ -108,7 +117,7 @@ struct Input {
 
 pub fn run(p: &Params) -> Report {
     let mut rep = Report::new("C04");
-    rep.rule = "cases = (state, spending transaction) in which everything except authorisation is valid by construction (coins exist, balanced, fee paid, unlocked, well-formed): 1-8 inputs drawn from covenant families ed25519 legacy/new (right/wrong key, right/wrong slot, signature over another transaction, fields tampered after signing, truncated), hash-lock on data, time-lock and deadline on the previous header's height, spender-index-, value-, additional-data-, parent-height-, parent-index-, output-count-bound, self-hash and random programs; inputs may share one covenant hash while differing in environment, down to twin coins that differ only in coin id and input position; covenants may be missing, corrupted after signing, or the coin may be locked to the hash of bytes that are not a program at all (a literal running past the end of a standard covenant or standing alone, an unassigned opcode, a missing operand). The spending transaction is a plain payment, a faucet-kind transaction with inputs (off mainnet) or a pool-kind transaction whose data names no pool; input values include 0. One case in 150 has 250-309 inputs whose questionable ones sit around and beyond position 255. One spend in four is applied as a member of a two-transaction batch whose other (valid) member lists every covenant the spend's inputs need, half of those with one covenant dropped from the spend itself. Oracle: the reference interpreter on the reference environment heap for every input: accepted => every input authorised; for the two standard signature covenants also all authorised => accepted. Non-trivial = >= 2 inputs, or an environment-dependent covenant, or a tampered transaction; distinct by transaction hash".into();
+    rep.rule = "cases = (state, spending transaction) in which everything except authorisation is valid by construction (coins exist, balanced, fee paid, unlocked, well-formed): 1-8 inputs drawn from covenant families ed25519 legacy/new (right/wrong key, right/wrong slot, signature over another transaction, fields tampered after signing, truncated), hash-lock on data, time-lock and deadline on the previous header's height, spender-index-, value-, additional-data-, parent-height-, parent-index-, output-count-bound, self-hash, loops that are left by a conditional jump, and random programs; inputs may share one covenant hash while differing in environment, down to twin coins that differ only in coin id and input position; covenants may be missing, corrupted after signing, or the coin may be locked to the hash of bytes that are not a program at all (a literal running past the end of a standard covenant or standing alone, an unassigned opcode, a missing operand). The spending transaction is a plain payment, a faucet-kind transaction with inputs (off mainnet) or a pool-kind transaction whose data names no pool; input values include 0. One case in 150 has 250-309 inputs whose questionable ones sit around and beyond position 255. One spend in four is applied as a member of a two-transaction batch whose other (valid) member lists every covenant the spend's inputs need, half of those with one covenant dropped from the spend itself. Oracle: the reference interpreter on the reference environment heap for every input: accepted => every input authorised; for the two standard signature covenants also all authorised => accepted. Non-trivial = >= 2 inputs, or an environment-dependent covenant, or a tampered transaction; distinct by transaction hash".into();
     let total = p.n(100_000, 2_500_000);
     let mine = p.share(total);
     let mut rng = Rng::new(p.shard_seed() ^ 0xC04);
@@ -211,7 +220,14 @@ pub fn run(p: &Params) -> Report {
                     9 => Fam::ParentHeightIs(height - 1 - r.below(2)),
                     10 => Fam::ParentIndexIs(r.below(3) as u8),
                     11 => Fam::OutputCount(1 + r.below(2) as u8),
-                    12 => Fam::Random((0..1 + r.usize(8)).map(|_| crate::mon::c12::random_op(&mut r, false)).collect()),
+                    12 => {
+                        if r.chance(1, 2) {
+                            Fam::Random((0..1 + r.usize(8)).map(|_| crate::mon::c12::random_op(&mut r, false)).collect())
+                        } else {
+                            let n = 2 + r.usize(3);
+                            Fam::LoopBreak((0..n).map(|_| *r.pick(&[0u8, 0, 1, 5])).collect(), 2 + r.below(2) as u16)
+                        }
+                    }
                     _ => {
                         if r.chance(1, 2) {
                             Fam::SelfHashCheck
